@@ -96,6 +96,108 @@ type keyOrder func(path string, keys []string) []string
 type emitter struct {
 	b     strings.Builder
 	order keyOrder
+	style *yamlStyle
+}
+
+// yamlStyle varies how a tree is written without changing what it means: small subtrees in flow style, repeated
+// string values through an anchor and aliases. Decisions are a function of the seed and the node's path.
+type yamlStyle struct {
+	seed    int
+	repeats map[string]int    // string value -> occurrences in value position
+	anchor  map[string]string // string value -> anchor name once defined
+	n       int
+}
+
+func (st *yamlStyle) coin(path, what string, num, den int) bool {
+	return int(hash64(fmt.Sprintf("%s|%s|%d", path, what, st.seed))%uint64(den)) < num
+}
+
+func hasTagged(v any) bool {
+	switch x := v.(type) {
+	case tagged, rawScalar:
+		return true
+	case map[string]any:
+		for _, e := range x {
+			if hasTagged(e) {
+				return true
+			}
+		}
+	case []any:
+		for _, e := range x {
+			if hasTagged(e) {
+				return true
+			}
+		}
+	}
+	return false
+}
+
+func treeSize(v any) int {
+	n := 1
+	switch x := v.(type) {
+	case map[string]any:
+		for _, e := range x {
+			n += treeSize(e)
+		}
+	case []any:
+		for _, e := range x {
+			n += treeSize(e)
+		}
+	}
+	return n
+}
+
+func countStrings(v any, out map[string]int) {
+	switch x := v.(type) {
+	case string:
+		out[x]++
+	case map[string]any:
+		for _, e := range x {
+			countStrings(e, out)
+		}
+	case []any:
+		for _, e := range x {
+			countStrings(e, out)
+		}
+	case tagged:
+		countStrings(x.V, out)
+	}
+}
+
+// scalar writes a scalar, possibly as an anchor definition or an alias.
+func (e *emitter) scalar(v any, path string) string {
+	s, ok := v.(string)
+	if !ok || e.style == nil || len(s) < 3 || e.style.repeats[s] < 2 {
+		return yamlScalar(v)
+	}
+	if a, ok := e.style.anchor[s]; ok {
+		return "*" + a
+	}
+	if !e.style.coin(s, "anchor", 1, 2) {
+		return yamlScalar(v)
+	}
+	e.style.n++
+	a := fmt.Sprintf("a%d", e.style.n)
+	e.style.anchor[s] = a
+	return "&" + a + " " + yamlScalar(v)
+}
+
+func (e *emitter) flow(v any, path string) string {
+	switch x := v.(type) {
+	case map[string]any:
+		var kv []string
+		for _, k := range e.keys(path, x) {
+			kv = append(kv, yamlKey(k)+": "+e.flow(x[k], path+"."+k))
+		}
+		return "{" + strings.Join(kv, ", ") + "}"
+	case []any:
+		var parts []string
+		for _, it := range x {
+			parts = append(parts, e.flow(it, path+"[]"))
+		}
+		return "[" + strings.Join(parts, ", ") + "]"
+	}
+	return e.scalar(v, path)
 }
 
 func (e *emitter) keys(path string, m map[string]any) []string {
@@ -116,6 +218,15 @@ func (e *emitter) node(v any, indent int, path string, inline bool) {
 	if t, ok := v.(tagged); ok {
 		tag = t.Tag + " "
 		v = t.V
+	}
+	if e.style != nil && tag == "" && indent >= 2 {
+		switch v.(type) {
+		case map[string]any, []any:
+			if sz := treeSize(v); sz > 1 && sz <= 12 && !hasTagged(v) && e.style.coin(path, "flow", 1, 3) {
+				e.b.WriteString(" " + e.flow(v, path) + "\n")
+				return
+			}
+		}
 	}
 	switch x := v.(type) {
 	case map[string]any:
@@ -164,13 +275,32 @@ func (e *emitter) node(v any, indent int, path string, inline bool) {
 				if t, ok := it.(tagged); ok {
 					e.b.WriteString(t.Tag + " " + yamlScalar(t.V) + "\n")
 				} else {
-					e.b.WriteString(yamlScalar(it) + "\n")
+					e.b.WriteString(e.scalar(it, path+"[]") + "\n")
 				}
 			}
 		}
 	default:
-		e.b.WriteString(" " + tag + yamlScalar(v) + "\n")
+		if tag == "" {
+			e.b.WriteString(" " + e.scalar(v, path) + "\n")
+		} else {
+			e.b.WriteString(" " + tag + yamlScalar(v) + "\n")
+		}
 	}
+}
+
+// emitYAMLStyled renders the same document as emitYAML in another YAML style chosen by the seed (0 = plain).
+func emitYAMLStyled(doc map[string]any, order keyOrder, seed int) string {
+	if seed == 0 || len(doc) == 0 {
+		return emitYAML(doc, order)
+	}
+	st := &yamlStyle{seed: seed, repeats: map[string]int{}, anchor: map[string]string{}}
+	countStrings(doc, st.repeats)
+	e := &emitter{order: order, style: st}
+	for _, k := range e.keys("", doc) {
+		e.b.WriteString(yamlKey(k) + ":")
+		e.node(doc[k], 1, k, false)
+	}
+	return e.b.String()
 }
 
 func flowSeq(s []any) string {
